@@ -531,6 +531,7 @@ def finalizeStandard (w : Writer) (width height : Nat) (md : Option Metadata) (v
   | some tr =>
     let payload := (vs.map (·.data.length)).sum + (aus.map (·.data.length)).sum
     if 8 + payload > u32Max then ⟨[ftyp], .ioErr "MP4 MDAT box size exceeds u32::MAX"⟩ else
+    if ftypLen + 8 + payload > u32Max then ⟨[ftyp], .ioErr "MP4 chunk offset exceeds u32::MAX"⟩ else
     let sched := schedule vs aus
     let pre := [ftyp] ++ mdatHeader payload ++ sched.map (entData vs aus)
     if moovPanics width height vs aus true then ⟨pre, .panic⟩ else
